@@ -212,7 +212,9 @@ def run_hist(unit):
 def run_reduce(unit):
     from serif import Vector, Table
     _, alpha_name, maxn = unit
-    alpha = {"int": [1, 2, None], "float": [0.5, 1.5, None], "neg": [-1, 3, None]}[alpha_name]
+    alpha = {"int": [1, 2, None], "float": [0.5, 1.5, None], "neg": [-1, 3, None],
+             # large magnitude, small spread: a numerically careless one-pass variance collapses here
+             "big": [10 ** 9, 10 ** 9 + 1, 10 ** 9 + 2, None], "bigf": [1e8 + 0.25, 1e8 + 1.25, 1e8 + 2.25, None]}[alpha_name]
     agg = Agg()
     for n in range(1, maxn + 1):
         for vals in itertools.product(alpha, repeat=n):
@@ -259,7 +261,7 @@ def check(ctx):
     units += [("hist", "str", f, METHOD, 2, "recycle") for f in (("name", "column") if ctx.thorough else ("name",))]
     if not ctx.thorough:
         units += [("hist", "str", "name", METHOD, 3, "fresh", p) for p in ("cell", "view", "replace", "cell2", "view2")]
-    units += [("reduce", a, ctx.pick(4, 5)) for a in ("int", "float", "neg")]
+    units += [("reduce", a, ctx.pick(4, 5)) for a in ("int", "float", "neg")] + [("reduce", a, 4) for a in ("big", "bigf")]
     agg = hashseeds.run(ctx, "props.c12", units)
     agg.notes["bound"] = "rows<=4 (1 key) / <=3 (2 keys) quick; <=5 / <=4 / <=2 (3 keys) thorough"
     agg.notes["exhaustive"] = True
